@@ -114,3 +114,326 @@ Example c14_pinned_object_payload_fault :
   extension_object_payload [0; 3; 1; 1] = Ok [] /\
   extension_object_payload [255; 255; 1; 1; 9; 8; 7; 6] = Ok [9; 8; 7; 6].
 Proof. vm_compute. repeat split; reflexivity. Qed.
+
+(* ==================================================================================================================
+   Second part.  An encoder for the structure the tracer REPORTS (Packet/ExtEncode.v: RFC 4884 s.7 header, version 2
+   + RFC 1071 checksum; object headers length / class-num / c-type; RFC 4950 label stack entries label 20 / EXP 3 /
+   S 1 / TTL 8), closed forms of the splitter and of the two iterators for EVERY octet string, what exactly happens
+   to malformed structures, and the link to the receive path (recv4 / recv6).
+   ================================================================================================================== *)
+From TV Require Import Packet.Checksum Packet.ExtEncode Proofs.ExtCodecProofs.
+From Coq Require Import Sorted.
+
+(* ---- (a) faithful ---- *)
+
+(* parse (encode s) = s.  For EVERY list of reported extensions whose fields are in range (any number of objects,
+   any mix of MPLS stacks and other classes, any payload, labels < 2^20, EXP < 8, TTL < 256, S = 1 at most on the
+   last entry of a stack): Extensions::try_from of the encoded structure is exactly that list, in order. *)
+Theorem c14_parse_encode_identity : forall es,
+  Forall ext_wf es -> extensions_try_from (encode_extensions es) = Ok es.
+Proof. exact parse_encode_id. Qed.
+
+(* hence the encoding is unambiguous: two different well-formed structures never share their octets *)
+Theorem c14_encode_injective : forall es1 es2,
+  Forall ext_wf es1 -> Forall ext_wf es2 -> encode_extensions es1 = encode_extensions es2 -> es1 = es2.
+Proof. exact encode_injective. Qed.
+
+(* The same through a whole ICMP message: ICMPv4 and ICMPv6, Time Exceeded and Destination Unreachable, compliant
+   sender (length attribute set) and legacy sender (extension at octet 128 of the quotation), any other header
+   octets: payload() is the original datagram field, extension() is exactly the encoded structure, and with parse
+   mode Enabled the tracer gets (original datagram, exactly the reported list). *)
+Theorem c14_message_parse_encode_identity : forall fam fixed orig es mode kind,
+  length fixed = 7%nat -> build_wf fam mode orig -> Forall ext_wf es ->
+  let msg := encode_message fam fixed orig es mode in
+  split_payload_extension fam msg = Ok (expected_datagram fam mode orig, Some (encode_extensions es)) /\
+  nested_and_extensions ExtEnabled kind fam msg = Ok (expected_datagram fam mode orig, Some es).
+Proof. exact message_parse_encode_id. Qed.
+
+(* The encoder produces a real wire structure: octets only, at least the 4-octet header, version nibble 2 and
+   reserved bits 0, and the receiver's RFC 1071 test over the whole structure (checksum included) succeeds. *)
+Theorem c14_encoder_emits_valid_wire : forall es, Forall ext_wf es -> Forall ext_octets es ->
+  bytes (encode_extensions es) /\ (4 <= length (encode_extensions es))%nat /\
+  nth 0 (encode_extensions es) 0 = 32 /\ nth 1 (encode_extensions es) 0 = 0 /\
+  (Z.of_nat (length (encode_extensions es)) <= 65535 -> oc_norm (zsum (words (encode_extensions es))) = 65535).
+Proof. exact encode_extensions_wire. Qed.
+
+(* "The quoted original datagram is returned unchanged": what payload() returns for a built message is the original
+   datagram followed by fewer than one word of zero padding (none when its length is a multiple of the word) for a
+   compliant sender; its first 128 octets (zero padded when shorter) for a legacy sender. *)
+Theorem c14_datagram_unchanged : forall fam mode orig,
+  match mode with
+  | BmCompliant =>
+    exists k, expected_datagram fam mode orig = orig ++ repeat 0 k /\ (k < word fam)%nat /\
+              ((length orig mod word fam = 0)%nat -> k = 0%nat)
+  | BmLegacy =>
+    expected_datagram fam mode orig = firstn 128 orig ++ repeat 0 (128 - length orig) /\
+    length (expected_datagram fam mode orig) = 128%nat
+  end.
+Proof. exact expected_datagram_shape. Qed.
+
+(* "Padding is not mistaken for extension data" (nor for datagram): the original datagram field on the wire is what
+   payload() returns followed by the zero padding up to octet 128; the extension is what follows that field
+   (c14_message_parse_encode_identity), so the padding is in neither part. *)
+Theorem c14_padding_in_neither_part : forall fam mode orig,
+  quoted fam mode orig
+  = expected_datagram fam mode orig ++ repeat 0 (128 - length (expected_datagram fam mode orig)).
+Proof. exact quoted_is_expected_then_zeros. Qed.
+
+(* The original datagram comes back whatever the octets of the extension are (garbage included); with parse mode
+   Enabled the result is that datagram together with whatever Extensions::try_from makes of those octets (an error
+   value of the conversion is the error value of the whole), with parse mode Disabled the extension is not looked at. *)
+Theorem c14_message_any_extension : forall fam fixed orig mode kind X,
+  length fixed = 7%nat -> build_wf fam mode orig -> (4 <= length X)%nat ->
+  let msg := icmp_head fam fixed (length_attribute fam mode orig) ++ quoted fam mode orig ++ X in
+  split_payload_extension fam msg = Ok (expected_datagram fam mode orig, Some X) /\
+  nested_and_extensions ExtEnabled kind fam msg
+    = (let* x := extensions_try_from X in Ok (expected_datagram fam mode orig, Some x)) /\
+  nested_and_extensions ExtDisabled kind fam msg
+    = Ok (match kind with
+          | KTimeExceeded => quoted fam mode orig ++ X
+          | KDestinationUnreachable => expected_datagram fam mode orig
+          end, None).
+Proof. exact message_any_extension. Qed.
+
+Example c14_encoder_example :
+  let es := [ExtMpls [{| mpls_label := 27121; mpls_exp := 4; mpls_bos := 0; mpls_ttl := 1 |};
+                      {| mpls_label := 1048575; mpls_exp := 7; mpls_bos := 1; mpls_ttl := 255 |}];
+             ExtUnknown 2 3 [1; 2; 3];
+             ExtUnknown 255 0 []] in
+  Forall ext_wf es /\ Forall ext_octets es /\
+  encode_extensions es = [32; 0; 181; 71;  0; 12; 1; 1;  6; 159; 24; 1;  255; 255; 255; 255;  0; 7; 2; 3; 1; 2; 3;  0; 4; 255; 0] /\
+  extensions_try_from (encode_extensions es) = Ok es.
+Proof.
+  cbv zeta. split; [|split; [|split; vm_compute; reflexivity]].
+  - repeat constructor; cbn; try lia; try discriminate.
+  - repeat constructor; cbn; lia.
+Qed.
+
+(* ---- the splitter in closed form ---- *)
+
+(* For EVERY message of at least the 8-octet ICMP header, both families: with len = the length attribute in octets
+   (octet 5 * 4 resp. octet 4 * 8) and l = the ICMP payload, the result is [split_spec len l]: no extension and the
+   whole payload when l is shorter than len, or at most 128 octets, or has fewer than 4 octets after the cut
+   (cut = len when len > 128, else 128); otherwise the first len octets (128 when len = 0) and everything from the cut. *)
+Theorem c14_split_closed_form : forall fam buf, (8 <= length buf)%nat ->
+  split_payload_extension fam buf = Ok (split_spec (length_attribute_octets fam buf) (skipn 8 buf)).
+Proof. exact split_payload_extension_exact. Qed.
+
+(* "Truncated header gives no extensions": exactly when no extension is reported, and then payload() is the whole
+   ICMP payload, untrimmed (the octets after the quotation included). *)
+Theorem c14_no_extension_exactly_when : forall len l,
+  (snd (split_spec len l) = None <->
+   (length l < len)%nat \/ (length l <= 128)%nat \/ (length l < split_cut len + 4)%nat) /\
+  (snd (split_spec len l) = None -> fst (split_spec len l) = l).
+Proof. intros len l. split; [apply split_spec_none|apply split_spec_none_whole]. Qed.
+
+(* When an extension is reported it starts at the cut (at or after octet 128 of the payload), holds at least the
+   4-octet header, and the payload ends at or before the cut. *)
+Theorem c14_extension_position : forall len l x, snd (split_spec len l) = Some x ->
+  x = skipn (split_cut len) l /\ fst (split_spec len l) = firstn (split_keep len) l /\
+  (split_keep len <= split_cut len)%nat /\ (split_cut len + 4 <= length l)%nat /\ (128 <= split_cut len)%nat.
+Proof. exact split_spec_some. Qed.
+
+Example c14_split_example :
+  (* ICMPv4, length attribute 9 words = 36 octets, payload of 128 + 3 octets: no room for an extension header *)
+  split_payload_extension FamV4 ([11; 0; 0; 0; 0; 9; 0; 0] ++ repeat 7 131) = Ok (repeat 7 131, None) /\
+  (* one octet more: the first 36 octets, and the 4 octets from octet 128 *)
+  split_payload_extension FamV4 ([11; 0; 0; 0; 0; 9; 0; 0] ++ repeat 7 132) = Ok (repeat 7 36, Some (repeat 7 4)) /\
+  (* a length attribute that points beyond the message: no extension, whole payload *)
+  split_payload_extension FamV6 ([3; 0; 0; 0; 255; 0; 0; 0] ++ repeat 7 300) = Ok (repeat 7 300, None).
+Proof. vm_compute. repeat split; reflexivity. Qed.
+
+(* ---- (b) terminates, total ---- *)
+
+(* ExtensionObjectIter::next, exactly, for EVERY buffer and EVERY offset (also beyond the end): with rest = the
+   octets from the offset on, it returns None when fewer than 4 octets are left, or the length field (first two
+   octets of rest, big endian) is below 4 or beyond what is left; otherwise the item rest and the offset advanced by
+   the length field.  Nothing outside the buffer is read, the result is always a value. *)
+Theorem c14_object_iterator_step : forall buf offset,
+  extension_object_iter_next buf offset =
+  Ok (if object_stops (skipn offset buf) then None
+      else Some (skipn offset buf, (offset + declared_length (skipn offset buf))%nat)).
+Proof. exact obj_next_all. Qed.
+
+(* The whole iteration, for EVERY octet string, as a relation on suffixes that does not mention offsets or fuel:
+   the items are the successive remainders, each starting [declared_length] octets after the previous one, up to
+   (and not including) the first remainder that stops.  Their declared lengths add up to at most the octets after
+   the header (the objects are disjoint and inside), so there are at most (length - 4) / 4 of them, and every later
+   item is at least 4 octets shorter than every earlier one (strictly decreasing suffixes). *)
+Theorem c14_objects_structure : forall buf,
+  exists items, extensions_objects buf = Ok items /\ obj_run (skipn 4 buf) items /\
+    (total_declared items <= length buf - 4)%nat /\ (length items <= (length buf - 4) / 4)%nat /\
+    StronglySorted (fun a b => (length b + 4 <= length a)%nat) items.
+Proof. exact objects_structure. Qed.
+
+(* the relation determines the items: it is a specification, not a description of one possible run *)
+Theorem c14_object_run_deterministic : forall rest i1 i2, obj_run rest i1 -> obj_run rest i2 -> i1 = i2.
+Proof. intros rest i1 i2 H1 H2. exact (obj_run_deterministic rest i1 H1 i2 H2). Qed.
+
+(* The label stack iterator likewise: 4-octet steps, the entry whose S bit (lowest bit of its third octet) is set is
+   the last one yielded, fewer than 4 remaining octets end the stack; at most length / 4 entries. *)
+Theorem c14_label_stack_structure : forall buf,
+  (exists items, mpls_label_stack_members buf = Ok items /\ mpls_run buf items /\
+     (length items <= length buf / 4)%nat /\
+     StronglySorted (fun a b => (length b + 4 <= length a)%nat) items) /\
+  (forall i1 i2, mpls_run buf i1 -> mpls_run buf i2 -> i1 = i2) /\
+  (forall offset bos, mpls_label_stack_iter_next buf offset bos =
+     Ok (if (0 <? bos) || (length (skipn offset buf) <? 4)%nat then None
+         else Some (skipn offset buf, (offset + 4)%nat, Z.land (nth 2 (skipn offset buf) 0) 1))).
+Proof.
+  intro buf. split; [apply members_structure|]. split.
+  - intros i1 i2 H1 H2. exact (mpls_run_deterministic buf i1 H1 i2 H2).
+  - intros offset bos. apply mpls_next_all.
+Qed.
+
+Example c14_iterator_example :
+  (* two objects (lengths 8 and 4), then a remainder whose length field (9) is beyond the 6 octets left *)
+  let buf := [32; 0; 0; 0;  0; 8; 2; 1; 9; 9; 9; 9;  0; 4; 7; 7;  0; 9; 1; 1; 5; 5] in
+  extensions_objects buf = Ok [skipn 4 buf; skipn 12 buf] /\
+  object_stops (skipn 16 buf) = true /\
+  (* a label stack of three entries whose second has S = 1: two members *)
+  mpls_label_stack_members [0; 1; 0; 9;  0; 2; 1; 9;  0; 3; 0; 9] = Ok [[0; 1; 0; 9; 0; 2; 1; 9; 0; 3; 0; 9]; [0; 2; 1; 9; 0; 3; 0; 9]].
+Proof. vm_compute. repeat split; reflexivity. Qed.
+
+(* ---- (c) malformed input ---- *)
+
+(* Wrong version: a structure of at least 4 octets whose version nibble is not 2 gives an EMPTY extension list
+   (Ok [], i.e. the tracer reports Some(Extensions { extensions: [] }) - present but empty, not absent, not an
+   error), whatever follows. *)
+Theorem c14_wrong_version_is_empty : forall b0 b1 b2 b3 rest, 0 <= b0 < 256 -> b0 / 16 <> 2 ->
+  extensions_try_from (b0 :: b1 :: b2 :: b3 :: rest) = Ok [].
+Proof. exact try_from_wrong_version. Qed.
+
+(* Bad checksum: the code never looks at the checksum, nor at the 12 reserved bits - two structures that differ only
+   there (and agree on the version nibble) are decoded identically.  (RFC 4884 s.7 leaves a receiver free to
+   validate; this one does not: see DELIVERY.md.) *)
+Theorem c14_checksum_and_reserved_ignored : forall b0 b1 b2 b3 c0 c1 c2 c3 rest,
+  0 <= b0 < 256 -> 0 <= c0 < 256 -> b0 / 16 = c0 / 16 ->
+  extensions_try_from (b0 :: b1 :: b2 :: b3 :: rest) = extensions_try_from (c0 :: c1 :: c2 :: c3 :: rest).
+Proof. exact try_from_checksum_ignored. Qed.
+
+(* Truncated header: fewer than 4 octets is the error value of the view (InsufficientPacketBuffer); by
+   c14_extension_position the splitter never hands such a slice to the conversion. *)
+Theorem c14_truncated_header_is_an_error : forall buf, (length buf < 4)%nat -> extensions_try_from buf = Err EPacket.
+Proof. exact try_from_truncated. Qed.
+
+(* An object whose declared length is shorter than its header, or longer than what remains, or that has no room for
+   its header, ends the iteration: exactly the well-formed objects before it are reported, it and everything after
+   it are dropped silently, no error. *)
+Theorem c14_malformed_object_ends_iteration : forall b0 b1 b2 b3 objs tail,
+  0 <= b0 < 256 -> b0 / 16 = 2 -> Forall obj_wf objs -> object_stops tail = true ->
+  extensions_try_from (b0 :: b1 :: b2 :: b3 :: ext_body objs ++ tail) = Ok (map expected_extension objs).
+Proof. exact try_from_stops_at_malformed. Qed.
+
+(* An MPLS object (class-num 1) whose length field is 4..7 - accepted by the iterator, but without room for one
+   label stack entry - makes the WHOLE conversion an error value, whatever precedes and follows it: the tracer then
+   gets an error for this ICMP message instead of a response (see DELIVERY.md). *)
+Theorem c14_short_mpls_object_is_an_error : forall b0 b1 b2 b3 objs t p tail,
+  0 <= b0 < 256 -> b0 / 16 = 2 -> Forall obj_wf objs -> (length p < 4)%nat ->
+  extensions_try_from (b0 :: b1 :: b2 :: b3 :: ext_body objs ++ ([0; Z.of_nat (4 + length p); 1; t] ++ p) ++ tail)
+  = Err EPacket.
+Proof. exact try_from_short_mpls. Qed.
+
+Example c14_malformed_example :
+  extensions_try_from [16; 0; 0; 0;  0; 8; 2; 1; 9; 9; 9; 9] = Ok [] /\
+  extensions_try_from [32; 0; 0; 0;  0; 8; 2; 1; 9; 9; 9; 9] = extensions_try_from [47; 255; 18; 52;  0; 8; 2; 1; 9; 9; 9; 9] /\
+  extensions_try_from [32; 0; 0] = Err EPacket /\
+  extensions_try_from [32; 0; 0; 0;  0; 8; 2; 1; 9; 9; 9; 9;  0; 3; 1; 1] = Ok [ExtUnknown 2 1 [9; 9; 9; 9]] /\
+  extensions_try_from [32; 0; 0; 0;  0; 8; 2; 1; 9; 9; 9; 9;  0; 6; 1; 1; 7; 7;  0; 4; 5; 5] = Err EPacket /\
+  obj_wf (ObjOther 2 1 [9; 9; 9; 9]) /\ object_stops [0; 3; 1; 1] = true.
+Proof.
+  split; [vm_compute; reflexivity|]. split; [vm_compute; reflexivity|]. split; [vm_compute; reflexivity|].
+  split; [vm_compute; reflexivity|]. split; [vm_compute; reflexivity|]. split; [|vm_compute; reflexivity].
+  cbn. repeat split; try lia; discriminate.
+Qed.
+
+(* ---- the receive path ---- *)
+From TV Require Import Core.Types Net.RecvCommon Net.Recv4 Net.Recv6 Proofs.RecvProofs Proofs.RecvRoundtrip Proofs.ExtModelsAgree Proofs.ExtEndToEnd.
+
+(* The receive path (Net/Recv4.v, Net/Recv6.v: the model C04 and C02 are stated over) has its own transcription of the
+   decoding, producing the canonical opaque encoding of the extension list.  On EVERY octet string it computes what
+   the codec above computes, error values included - so every statement of this file is a statement about what
+   recv4 / recv6 report. *)
+Theorem c14_receive_path_decodes_alike : forall v, bytes v ->
+  RecvCommon.extensions_try_from v = (let* es := IcmpExt.extensions_try_from v in Ok (enc_exts es)).
+Proof. exact extensions_models_agree. Qed.
+
+(* End to end, ICMPv4: any outer IPv4 header H (any header length), Time Exceeded (code 0) or Destination
+   Unreachable (any code), extension parsing enabled, a message built by the encoder that fits the receive buffer
+   and quotes at least an IPv4 header: recv4 decodes the quoted datagram exactly as far as the message carries it
+   and attaches exactly the encoded extension list. *)
+Theorem c14_recv4_reports_encoded : forall c now H src (du : bool) code c1 c2 b4 b6 b7 orig es mode,
+  hdr4_ok H -> (forall x, ipv4_get_source (H ++ x) = Ok src) -> (du = false -> code = 0) ->
+  rc_ext c = true -> build_wf FamV4 mode orig -> Forall ext_wf es -> Forall ext_octets es ->
+  20 <= zlen (expected_datagram FamV4 mode orig) ->
+  let msg := encode_message FamV4 [if du then 3 else 11; code; c1; c2; b4; b6; b7] orig es mode in
+  zlen H + zlen msg <= 1024 ->
+  recv4 c now (H ++ msg) = finish4 c now src du code (expected_datagram FamV4 mode orig) (Some (enc_exts es)).
+Proof. exact recv4_reports_encoded. Qed.
+
+(* End to end, ICMPv6 (Time Exceeded = type 3, Destination Unreachable = type 1). *)
+Theorem c14_recv6_reports_encoded : forall c now from (du : bool) code c1 c2 b5 b6 b7 orig es mode,
+  is_v6 from = true -> (du = false -> code = 0) ->
+  rc_ext c = true -> build_wf FamV6 mode orig -> Forall ext_wf es -> Forall ext_octets es ->
+  40 <= zlen (expected_datagram FamV6 mode orig) ->
+  let msg := encode_message FamV6 [if du then 1 else 3; code; c1; c2; b5; b6; b7] orig es mode in
+  zlen msg <= 1024 ->
+  recv6 c now (Some from) msg = finish6 c now from du code (expected_datagram FamV6 mode orig) (Some (enc_exts es)).
+Proof. exact recv6_reports_encoded. Qed.
+
+(* non-vacuity: an ICMP tracer, a router 10.0.0.9 answering Time Exceeded for an echo request of 36 octets (compliant,
+   length attribute 9), one MPLS object - the response carries the canonical encoding of exactly that stack *)
+Example c14_recv4_example :
+  let c := {| rc_src := [10;0;0;1]; rc_dest := [10;0;0;2]; rc_proto := Icmp; rc_privileged := true; rc_ext := true; rc_pattern := 0 |} in
+  let H := [69;0;0;0; 0;0;0;0; 64;1;0;0; 10;0;0;9; 10;0;0;1] in
+  let orig := [69;0;0;36; 0;0;64;0; 1;1;0;0; 10;0;0;1; 10;0;0;2] ++ [8;0;0;0; 18;52;130;155] ++ repeat 0 8 in
+  let es := [ExtMpls [{| mpls_label := 27121; mpls_exp := 4; mpls_bos := 1; mpls_ttl := 1 |}]] in
+  let msg := encode_message FamV4 [11; 0; 0; 0; 0; 0; 0] orig es BmCompliant in
+  hdr4_ok H /\ build_wf FamV4 BmCompliant orig /\ Forall ext_wf es /\ 20 <= zlen (expected_datagram FamV4 BmCompliant orig) /\
+  zlen H + zlen msg <= 1024 /\ nth 5 msg 0 = 9 /\
+  recv4 c 5 (H ++ msg)
+  = Ok (Some (RTimeExceeded {| r_recv := 5; r_addr := [10;0;0;9]; r_proto := PIcmp 4660 33435 (Some 0) |} 0
+                            (Some (enc_exts es)))) /\
+  enc_exts es = [1; 0; 1; 0; 105; 241; 4; 1; 1].
+Proof.
+  cbv zeta. split; [vm_compute; split; [discriminate|reflexivity]|].
+  split; [split; [discriminate|vm_compute; discriminate]|].
+  split; [repeat constructor; cbn; try lia; discriminate|].
+  split; [vm_compute; discriminate|]. split; [vm_compute; discriminate|].
+  split; [vm_compute; reflexivity|]. split; vm_compute; reflexivity.
+Qed.
+
+(* the hypothesis on the outer header of c14_recv4_reports_encoded holds for that header, whatever follows it *)
+Example c14_recv4_example_source : forall x,
+  ipv4_get_source ([69;0;0;0; 0;0;0;0; 64;1;0;0; 10;0;0;9; 10;0;0;1] ++ x) = Ok [10;0;0;9].
+Proof.
+  intro x. unfold ipv4_get_source. cbn [app]. rewrite zslice_ok; [reflexivity|lia|].
+  rewrite !zlen_cons. pose proof (zlen_nonneg x). lia.
+Qed.
+
+(* ---- two statements one might expect of the property that are FALSE of the code (witnesses; see DELIVERY.md) ---- *)
+
+(* "A bad checksum gives no extensions" is false: the checksum is never verified.  Witness: a structure whose
+   checksum field is transmitted (non-zero) and wrong - the RFC 1071 receiver test fails - is decoded and its object
+   reported.  (RFC 4884 s.5.5 makes a valid checksum the condition for accepting a legacy extension at octet 128.) *)
+Theorem c14_bad_checksum_rejected_refuted :
+  exists buf, bytes buf /\ (nth 2 buf 0 <> 0 \/ nth 3 buf 0 <> 0) /\ oc_norm (zsum (words buf)) <> 65535 /\
+              exists es, es <> [] /\ IcmpExt.extensions_try_from buf = Ok es.
+Proof.
+  exists [32; 0; 0; 1;  0; 8; 2; 1; 9; 9; 9; 9].
+  split; [unfold bytes; repeat constructor; lia|]. split; [right; vm_compute; discriminate|].
+  split; [vm_compute; discriminate|]. exists [ExtUnknown 2 1 [9; 9; 9; 9]]. split; [discriminate|vm_compute; reflexivity].
+Qed.
+
+(* "The quoted datagram is returned unchanged whenever the message carries no extension" is false for a plain message
+   of a non-compliant sender (length attribute 0) that quotes more than 131 octets: the quotation is cut to 128
+   octets and its own octets from 128 on are taken for an extension structure - whatever their version nibble (the
+   splitter does not look; here it is 0, so the tracer reports an empty extension list). *)
+Theorem c14_plain_long_quotation_trimmed_refuted :
+  exists fam fixed orig kind, length fixed = 7%nat /\
+    nested_and_extensions ExtEnabled kind fam (icmp_head fam fixed 0 ++ orig) = Ok (firstn 128 orig, Some []) /\
+    firstn 128 orig <> orig.
+Proof.
+  exists FamV4, [11; 0; 0; 0; 0; 0; 0], (repeat 7 200), KTimeExceeded.
+  split; [reflexivity|]. split; [vm_compute; reflexivity|]. vm_compute. discriminate.
+Qed.
